@@ -12,6 +12,7 @@
 From Coq Require Import List NArith ZArith Bool Arith Lia.
 From RecordUpdate Require Import RecordUpdate.
 From JV Require Import Bytes Msg SrvModel SrvLemmas SrvBasics SrvC03.
+From JV Require Import SrvHist.
 From JV Require SrvC06.
 From JV Require SrvNoCrash.
 Import ListNotations.
@@ -195,3 +196,30 @@ Theorem c03_calls_do_not_block_later_all_dispatched : forall c s,
   inq s = [] /\ dp s = DWaitWork /\ nbar s = 0 /\ forall v, v < length (units s) -> released s v = true.
 Proof. exact SrvNoCrash.c03_all_dispatched_nc. Qed.
 Print Assumptions c03_calls_do_not_block_later_all_dispatched.
+
+(* "arrives in an earlier inbound message" = smaller t_unit.  The ghost history (srv/SrvHist.v): [accepted s0 tr] =
+   what the reader windows of the run appended to the work queue, in trace order; [alog] = the same with stops
+   applied (a stop keeps the dispatched entries and rewrites the queued ones with stop_queue).
+   Every task is a member of the log entry whose index is its unit number ... *)
+Theorem c03_unit_is_arrival_index : forall c tr s oss k t,
+  run (init_of c) tr = Some (s, oss) -> nth_error (tasks s) k = Some t ->
+  exists b ms, nth_error (alog (init_of c) tr []) (t_unit t) = Some (b, ms) /\ In (tmem t) (map jmem ms).
+Proof. exact SrvHist.task_arrival_index. Qed.
+Print Assumptions c03_unit_is_arrival_index.
+
+(* ... and without a stop the log is the arrival sequence: a task whose message was accepted during the first part
+   tr1 of the trace has a smaller unit number than every task whose message was accepted during the rest tr2 *)
+Theorem c03_earlier_message_smaller_unit : forall c tr1 tr2 s1 oss1 s oss k t,
+  run (init_of c) tr1 = Some (s1, oss1) -> run (init_of c) (tr1 ++ tr2) = Some (s, oss) ->
+  stop_free (init_of c) (tr1 ++ tr2) = true -> nth_error (tasks s) k = Some t ->
+  let n1 := length (accepted (init_of c) tr1) in
+  exists b ms, In (tmem t) (map jmem ms) /\
+    ((t_unit t < n1 /\ nth_error (accepted (init_of c) tr1) (t_unit t) = Some (b, ms)) \/
+     (n1 <= t_unit t /\ nth_error (accepted s1 tr2) (t_unit t - n1) = Some (b, ms))).
+Proof. exact SrvHist.task_arrival_order. Qed.
+Print Assumptions c03_earlier_message_smaller_unit.
+
+Theorem c03_accepted_in_trace_order : forall tr1 s tr2 s1 oss, run s tr1 = Some (s1, oss) ->
+  accepted s (tr1 ++ tr2) = accepted s tr1 ++ accepted s1 tr2.
+Proof. exact SrvHist.accepted_app. Qed.
+Print Assumptions c03_accepted_in_trace_order.
